@@ -733,46 +733,11 @@ example : de exampleT (ser exampleV ++ [0xff]) = .ok exampleV [0xff] := roundtri
 
 /-! ## 4. the full statement (all representations), its refutation in the known classes -/
 
-/-- the `Content` that the bridge's `deserialize_any` buffers for a serialised value. -/
-def cInt (v : Int) : Content :=
-  if v ≥ 0 then
-    (if v ≤ 255 then .int .u8 v else if v ≤ 65535 then .int .u16 v else if v ≤ 4294967295 then .int .u32 v else .int .u64 v)
-  else
-    (if v ≥ -128 then .int .i8 v else if v ≥ -32768 then .int .i16 v else if v ≥ -2147483648 then .int .i32 v else .int .i64 v)
-
-mutual
-def toC : SVal → Content
-  | .bool b => .bool b
-  | .int _ v => cInt v
-  | .f32 b => .f32 b
-  | .f64 b => .f64 b
-  | .char c => cInt c
-  | .str s => .str s
-  | .bytes b => .bytes b
-  | .none => .none
-  | .some v => toC v
-  | .unit => .seq []
-  | .unitStruct => .seq []
-  | .unitVariant n => .str n
-  | .newtypeStruct v => toC v
-  | .newtypeVariant n v => .map [.str n, toC v]
-  | .seq _ xs => .seq (toCs xs)
-  | .tuple xs => .seq (toCs xs)
-  | .tupleStruct xs => .seq (toCs xs)
-  | .tupleVariant n xs => .map [.str n, .seq (toCs xs)]
-  | .map _ kvs => .map (toCs kvs)
-  | .struct kvs => .map (toCs kvs)
-  | .structVariant n kvs => .map [.str n, .map (toCs kvs)]
-def toCs : List SVal → List Content
-  | [] => []
-  | x :: xs => toC x :: toCs xs
-end
-
 /-- the value is variant number `i` (0-based) of an untagged enum: its trace is the content of
     that variant, and no earlier variant accepts the buffered content (serde tries the variants in
     order; ambiguous enums are outside the property). -/
 def UntaggedAt (vs : List VShape) (i : Nat) (v : SVal) : Prop :=
-  ∀ j, j < i → ∀ s, vs[j]? = some s → untaggedC s (toC v) = .fail
+  ∀ j, j < i → ∀ s, vs[j]? = some s → untaggedC s (cOfW (toW v)) = .fail
 
 /-- `HasTC v t`: typing for every representation, including the four that go through serde's
     `Content` buffer.  Members of flattened structs and contents of tagged / untagged variants
@@ -984,5 +949,615 @@ theorem de_any_on_ser (v : SVal) (h : vok v = true) (rest : Bytes) :
     deAny (ser v ++ rest) = .ok (cOfW (toW v)) rest := by
   rw [ser_eq_encW v h]
   exact deAny_encW (toW v) (toW_valid v h) (toW_anyOk v h) rest
+
+
+/-! ## 7. round trip through serde's `Content` buffer -/
+
+/-- what the buffer holds after `deserialize_any` on `ser v` (`de_any_on_ser`). -/
+def cv (v : SVal) : Content := cOfW (toW v)
+def cvs (xs : List SVal) : List Content := cOfWs (toWs xs)
+
+mutual
+/-- the type can be read back from the buffer: no `char` (K6), no `()` (K7), no unit struct
+    under a `ContentRefDeserializer` (`own = false`, untagged enums), no nested buffered
+    representation. -/
+def cgood : SType → Bool → Bool
+  | .bool, _ => true
+  | .int _, _ => true
+  | .f32, _ => true
+  | .f64, _ => true
+  | .char, _ => false
+  | .str, _ => true
+  | .bytes, _ => true
+  | .unit, _ => false
+  | .unitStruct, own => own
+  | .option t, own => cgood t own
+  | .newtype t, own => cgood t own
+  | .seq _ t, own => cgood t own
+  | .tuple ts, own => cgoods ts own
+  | .tupleStruct ts, own => cgoods ts own
+  | .map _ k v, own => cgood k own && cgood v own
+  | .struct _ ts, own => cgoods ts own
+  | .enum _ vs, own => cgoodVs vs own
+  | .flat .., _ => false
+  | .itag .., _ => false
+  | .atag .., _ => false
+  | .untagged _, _ => false
+def cgoods : List SType → Bool → Bool
+  | [], _ => true
+  | t :: ts, own => cgood t own && cgoods ts own
+def cgoodV : VShape → Bool → Bool
+  | .unit, _ => true
+  | .newtype t, own => cgood t own
+  | .tuple ts, own => cgoods ts own
+  | .struct _ ts, own => cgoods ts own
+def cgoodVs : List VShape → Bool → Bool
+  | [], _ => true
+  | s :: ss, own => cgoodV s own && cgoodVs ss own
+end
+
+@[simp] theorem cres_ok_bind (a : α) (f : α → CRes β) : (CRes.ok a >>= f) = f a := rfl
+@[simp] theorem cres_pure (a : α) : (pure a : CRes α) = .ok a := rfl
+
+theorem cvs_cons (x : SVal) (xs : List SVal) : cvs (x :: xs) = cv x :: cvs xs := by simp [cvs, cv, toWs, cOfWs]
+theorem cvs_nil : cvs [] = [] := rfl
+
+theorem cv_int (k : IntKind) (v : Int) : ∃ k', cv (.int k v) = .int k' v := by
+  unfold cv toW intW
+  split
+  · rename_i h; exact ⟨_, by simp only [cOfW]; congr 1; omega⟩
+  · rename_i h; exact ⟨_, by simp only [cOfW]; congr 1; omega⟩
+
+theorem cOfW_none (w : WItem) (hok : anyOk w = true) (h : cOfW w = .none) : w = .simple 22 := by
+  cases w <;> simp only [cOfW] at h <;> try cases h
+  · simp [anyOk] at hok
+  · rename_i n
+    split at h
+    · rename_i hn; simp at hn; rw [hn]
+    · cases h
+
+theorem cv_ne_none (v : SVal) (hok : vok v = true) (hn : nullLike v = false) : cv v ≠ .none := by
+  intro h
+  have := toW_null v (cOfW_none (toW v) (toW_anyOk v hok) h)
+  rw [this] at hn; cases hn
+
+theorem fromC_option_some (t : SType) (own : Bool) (c : Content) (h : c ≠ .none) :
+    fromC (.option t) own c = (fromC t own c >>= fun v => pure (.some v)) := by
+  cases c <;> first | rfl | exact absurd rfl h
+
+/-- the readers read back the values, position by position (from the buffer). -/
+def AllRtC : List (Content → CRes SVal) → List SVal → Prop
+  | f :: fs, v :: vs => f (cv v) = .ok v ∧ AllRtC fs vs
+  | [], [] => True
+  | _, _ => False
+
+theorem cAll_rt : (fs : List (Content → CRes SVal)) → (vs : List SVal) → AllRtC fs vs → cAll fs (cvs vs) = .ok vs
+  | [], [], _ => rfl
+  | [], _ :: _, h => by simp [AllRtC] at h
+  | _ :: _, [], h => by simp [AllRtC] at h
+  | f :: fs, v :: vs, h => by
+    simp only [AllRtC] at h
+    simp [cvs_cons, cAll, h.1, cAll_rt fs vs h.2]
+
+theorem cEach_rt (f : Content → CRes SVal) : (vs : List SVal) → (∀ v ∈ vs, f (cv v) = .ok v) → cEach f (cvs vs) = .ok vs
+  | [], _ => rfl
+  | v :: vs, h => by
+    simp [cvs_cons, cEach, h v (by simp), cEach_rt f vs (fun x hx => h x (by simp [hx]))]
+
+def PairsRtC (fk fv : Content → CRes SVal) : List SVal → Prop
+  | k :: v :: rest => fk (cv k) = .ok k ∧ fv (cv v) = .ok v ∧ PairsRtC fk fv rest
+  | [] => True
+  | [_] => False
+
+theorem cPairs_rt (fk fv : Content → CRes SVal) : (kvs : List SVal) → PairsRtC fk fv kvs → cPairs fk fv (cvs kvs) = .ok kvs
+  | [], _ => rfl
+  | [_], h => by cases h
+  | k :: v :: rest, h => by
+    simp [cvs_cons, cPairs, h.1, h.2.1, cPairs_rt fk fv rest h.2.2]
+
+theorem PairsRtC.even {fk fv : Content → CRes SVal} : (kvs : List SVal) → PairsRtC fk fv kvs → kvs.length % 2 = 0
+  | [], _ => rfl
+  | [_], h => by cases h
+  | _ :: _ :: rest, h => by have := PairsRtC.even rest h.2.2; simp; omega
+
+/-- the buffered entries of a struct: field names as `Str` keys with the buffered values -/
+def cKvs : List Bytes → List SVal → List Content
+  | n :: ns, v :: vs => .str n :: cv v :: cKvs ns vs
+  | _, _ => []
+
+theorem cvs_mkKvs : (ns : List Bytes) → (vs : List SVal) → cvs (mkKvs ns vs) = cKvs ns vs
+  | [], _ => by simp [mkKvs, cKvs, cvs_nil]
+  | _ :: _, [] => by simp [mkKvs, cKvs, cvs_nil]
+  | n :: ns, v :: vs => by
+    simp only [mkKvs, cvs_cons, cKvs, cvs_mkKvs ns vs]
+    simp [cv, toW, textW, cOfW]
+
+/-- the derived struct visitor over a `MapDeserializer` reads the fields back. -/
+theorem cStructLoop_rt (all : List FieldDec) (hnd : (all.map (·.name)).Nodup) :
+    (suf : List FieldDec) → (vs : List SVal) → (∀ f ∈ suf, f ∈ all) → ((suf.map (·.name)).Nodup) →
+    AllRtC (suf.map (·.fromC)) vs → ∀ (fd : Found), (∀ f ∈ suf, fd.has f.name = false) →
+    cStructLoop all (cKvs (suf.map (·.name)) vs) fd = .ok (fd ++ pairsOf (suf.map (·.name)) vs)
+  | [], [], _, _, _, fd, _ => by simp [cKvs, cStructLoop, pairsOf]
+  | [], _ :: _, _, _, h, _, _ => by simp [AllRtC] at h
+  | _ :: _, [], _, _, h, _, _ => by simp [AllRtC] at h
+  | f :: suf, v :: vs, hsub, hnds, hrt, fd, hfresh => by
+    simp only [List.map_cons, AllRtC] at hrt
+    simp only [List.map_cons, List.nodup_cons] at hnds
+    have hfind := findField_mem all hnd f (hsub f (by simp))
+    have hfr := hfresh f (by simp)
+    have ih := cStructLoop_rt all hnd suf vs (fun g hg => hsub g (by simp [hg])) hnds.2 hrt.2 (fd ++ [(f.name, v)])
+      (by
+        intro g hg
+        rw [has_append, hfresh g (by simp [hg])]
+        have : f.name ≠ g.name := fun e => hnds.1 (e ▸ List.mem_map_of_mem (f := (·.name)) hg)
+        simpa using this)
+    simp only [List.map_cons, cKvs, cStructLoop, cFieldId, hfind, hfr, Bool.false_eq_true, if_false, hrt.1,
+      cres_ok_bind, ih]
+    simp [pairsOf]
+
+theorem allRtC_length : (fs : List (Content → CRes SVal)) → (vs : List SVal) → AllRtC fs vs → fs.length = vs.length
+  | [], [], _ => rfl
+  | [], _ :: _, h => by simp [AllRtC] at h
+  | _ :: _, [], h => by simp [AllRtC] at h
+  | _ :: fs, _ :: vs, h => by simp [allRtC_length fs vs h.2]
+
+theorem cStructMap_rt (fs : List FieldDec) (hnd : (fs.map (·.name)).Nodup) (vs : List SVal)
+    (hrt : AllRtC (fs.map (·.fromC)) vs) :
+    cStructMap fs (cKvs (fs.map (·.name)) vs) = .ok (mkKvs (fs.map (·.name)) vs) := by
+  have hl : fs.length = vs.length := by simpa using allRtC_length _ _ hrt
+  have hloop := cStructLoop_rt fs hnd fs vs (fun _ h => h) hnd hrt [] (by simp [Found.has])
+  have hfin := finish_rt fs vs hl hnd [] (by simp [Found.has])
+  simp only [List.nil_append] at hloop hfin
+  simp [cStructMap, hloop, hfin]
+
+theorem fieldCs_names : (names : List Bytes) → (ts : List SType) → (own : Bool) → names.length = ts.length →
+    (fieldCs names ts own).map (·.name) = names
+  | [], [], _, _ => by simp [fieldCs]
+  | [], _ :: _, _, h => by simp at h
+  | _ :: _, [], _, h => by simp at h
+  | n :: ns, t :: ts, own, h => by simp [fieldCs, fieldCs_names ns ts own (by simpa using h)]
+
+theorem fieldCs_fromC : (names : List Bytes) → (ts : List SType) → (own : Bool) → names.length = ts.length →
+    (fieldCs names ts own).map (·.fromC) = fromCs ts own
+  | [], [], _, _ => by simp [fieldCs, fromCs]
+  | [], _ :: _, _, h => by simp at h
+  | _ :: _, [], _, h => by simp at h
+  | n :: ns, t :: ts, own, h => by simp [fieldCs, fromCs, fieldCs_fromC ns ts own (by simpa using h)]
+
+theorem findVar_varCs : (names : List Bytes) → (vs : List VShape) → (own : Bool) → (n : Bytes) →
+    findVar (varCs names vs own) n = (findShape names vs n).map (fun s => (⟨n, fail .custom, varC n s own⟩ : VarDec))
+  | [], _, _, _ => by simp [varCs, findVar, findShape]
+  | _ :: _, [], _, _ => by simp [varCs, findVar, findShape]
+  | n' :: ns, s :: ss, own, n => by
+    have ih := findVar_varCs ns ss own n
+    simp only [varCs, findVar, List.find?, findShape] at ih ⊢
+    by_cases h : n' = n
+    · subst h; simp
+    · have : (n' == n) = false := by simpa using h
+      simp [this, ih]
+
+theorem cgoodVs_find : (names : List Bytes) → (vs : List VShape) → (own : Bool) → (n : Bytes) → (s : VShape) →
+    cgoodVs vs own = true → findShape names vs n = some s → cgoodV s own = true
+  | [], _, _, _, _, _, h => by simp [findShape] at h
+  | _ :: _, [], _, _, _, _, h => by simp [findShape] at h
+  | n' :: ns, s' :: ss, own, n, s, hg, h => by
+    simp only [cgoodVs, Bool.and_eq_true] at hg
+    simp only [findShape] at h
+    split at h
+    · cases h; exact hg.1
+    · exact cgoodVs_find ns ss own n s hg.2 h
+
+/-- the content next to the name of a variant, as buffered -/
+def payloadC : SVal → Option Content
+  | .newtypeVariant _ x => some (cv x)
+  | .tupleVariant _ xs => some (.seq (cvs xs))
+  | .structVariant _ kvs => some (.map (cvs kvs))
+  | _ => none
+
+theorem struct_fromC (names : List Bytes) (vals : List SVal) (ts : List SType) (own : Bool) (hl : names.length = ts.length)
+    (hnd : names.Nodup) (hrt : AllRtC (fromCs ts own) vals) (seqOk : Bool) :
+    cStruct (fieldCs names ts own) seqOk (.map (cvs (mkKvs names vals))) = .ok (mkKvs names vals) := by
+  have h := cStructMap_rt (fieldCs names ts own) (by rw [fieldCs_names names ts own hl]; exact hnd) vals
+    (by rw [fieldCs_fromC names ts own hl]; exact hrt)
+  rw [fieldCs_names names ts own hl] at h
+  simp only [cStruct, cvs_mkKvs, h]
+
+mutual
+/-- **round trip through the buffer**: a value of a directly-read type whose type avoids `char`
+    and `()` is rebuilt from the `Content` that `deserialize_any` buffers for its encoding. -/
+theorem fromC_rt : {v : SVal} → {t : SType} → HasT v t → (own : Bool) → cgood t own = true → fromC t own (cv v) = .ok v
+  | _, _, .bool b, own, _ => by cases b <;> rfl
+  | _, _, .int k v h1 h2, own, _ => by
+    obtain ⟨k', hk⟩ := cv_int k v
+    simp [fromC, hk, h1, h2]
+  | _, _, .f32 b _, own, _ => rfl
+  | _, _, .f64 b _, own, _ => rfl
+  | _, _, .char c _, own, hg => by simp [cgood] at hg
+  | _, _, .str s _ _, own, _ => rfl
+  | _, _, .bytes b _, own, _ => rfl
+  | _, _, .unit, own, hg => by simp [cgood] at hg
+  | _, _, .unitStruct, own, hg => by
+    simp only [cgood] at hg
+    subst hg; rfl
+  | _, _, .none t, own, _ => rfl
+  | _, _, .some v t h hok hn, own, hg => by
+    simp only [cgood] at hg
+    have hne := cv_ne_none v hok hn
+    show fromC (.option t) own (cv v) = _
+    rw [fromC_option_some t own _ hne, fromC_rt h own hg]; rfl
+  | _, _, .newtype v t h, own, hg => by
+    simp only [cgood] at hg
+    show fromC (.newtype t) own (cv v) = _
+    simp only [fromC, fromC_rt h own hg]; rfl
+  | _, _, .seq known xs t h _ _, own, hg => by
+    simp only [cgood] at hg
+    have : cv (.seq known xs) = .seq (cvs xs) := by cases known <;> simp [cv, cvs, toW, cOfW]
+    simp [fromC, this, cEach_rt _ xs (fromC_each h own hg)]
+  | _, _, .tuple xs ts h _, own, hg => by
+    simp only [cgood] at hg
+    have : cv (.tuple xs) = .seq (cvs xs) := by simp [cv, cvs, toW, cOfW]
+    simp [fromC, this, cAll_rt _ xs (fromC_all h own hg)]
+  | _, _, .tupleStruct xs ts h _, own, hg => by
+    simp only [cgood] at hg
+    have : cv (.tupleStruct xs) = .seq (cvs xs) := by simp [cv, cvs, toW, cOfW]
+    simp [fromC, this, cAll_rt _ xs (fromC_all h own hg)]
+  | _, _, .map known kvs k v h _ _ hasc, own, hg => by
+    simp only [cgood, Bool.and_eq_true] at hg
+    have : cv (.map known kvs) = .map (cvs kvs) := by cases known <;> simp [cv, cvs, toW, cOfW]
+    have hp := fromC_pairs h own hg.1 hg.2
+    simp [fromC, this, cPairs_rt _ _ kvs hp, mkMap_sorted kvs (PairsRtC.even kvs hp) hasc]
+  | _, _, .struct names vals ts h hl hnd _ _, own, hg => by
+    simp only [cgood] at hg
+    have : cv (.struct (mkKvs names vals)) = .map (cvs (mkKvs names vals)) := by simp [cv, cvs, toW, cOfW]
+    simp [fromC, this, struct_fromC names vals ts own hl hnd (fromC_all h own hg) true]
+  | _, _, .enum v names vs n s hvar hf _, own, hg => by
+    simp only [cgood] at hg
+    have hgs := cgoodVs_find names vs own n s hg hf
+    have hv := fromC_var hvar own hgs
+    have hfind := findVar_varCs names vs own n
+    rw [hf] at hfind
+    simp only [Option.map_some] at hfind
+    simp only [fromC]
+    cases hvar with
+    | unit n => simpa [cv, toW, textW, cOfW, cEnum, hfind, payloadC] using hv
+    | newtype n x t hx =>
+      have : cv (.newtypeVariant n x) = .map [.str n, cv x] := by simp [cv, toW, textW, cOfW, cOfWs]
+      simpa [this, cEnum, cVarId, hfind, payloadC] using hv
+    | tuple n xs ts hx hl =>
+      have : cv (.tupleVariant n xs) = .map [.str n, .seq (cvs xs)] := by simp [cv, cvs, toW, textW, cOfW, cOfWs]
+      simpa [this, cEnum, cVarId, hfind, payloadC] using hv
+    | struct n fn vals ts hx hl hnd hok hlen =>
+      have : cv (.structVariant n (mkKvs fn vals)) = .map [.str n, .map (cvs (mkKvs fn vals))] := by
+        simp [cv, cvs, toW, textW, cOfW, cOfWs]
+      simpa [this, cEnum, cVarId, hfind, payloadC] using hv
+theorem fromC_each : {xs : List SVal} → {t : SType} → HasEach xs t → (own : Bool) → cgood t own = true →
+    ∀ v ∈ xs, fromC t own (cv v) = .ok v
+  | _, _, .nil t, _, _ => by intro v hv; cases hv
+  | _, _, .cons x xs t h hs, own, hg => by
+    intro y hy
+    rcases List.mem_cons.mp hy with e | hy'
+    · rw [e]; exact fromC_rt h own hg
+    · exact fromC_each hs own hg y hy'
+theorem fromC_all : {xs : List SVal} → {ts : List SType} → HasAll xs ts → (own : Bool) → cgoods ts own = true →
+    AllRtC (fromCs ts own) xs
+  | _, _, .nil, _, _ => by simp [fromCs, AllRtC]
+  | _, _, .cons x xs t ts h hs, own, hg => by
+    simp only [cgoods, Bool.and_eq_true] at hg
+    simp only [fromCs, AllRtC]
+    exact ⟨fromC_rt h own hg.1, fromC_all hs own hg.2⟩
+theorem fromC_pairs : {kvs : List SVal} → {k v : SType} → HasPairs kvs k v → (own : Bool) → cgood k own = true →
+    cgood v own = true → PairsRtC (fromC k own) (fromC v own) kvs
+  | _, _, _, .nil k v, _, _, _ => by simp [PairsRtC]
+  | _, _, _, .cons a b rest k v ha hb hs, own, hk, hv => by
+    simp only [PairsRtC]
+    exact ⟨fromC_rt ha own hk, fromC_rt hb own hv, fromC_pairs hs own hk hv⟩
+theorem fromC_var : {v : SVal} → {n : Bytes} → {s : VShape} → VarOf v n s → (own : Bool) → cgoodV s own = true →
+    varC n s own (payloadC v) = .ok v
+  | _, _, _, .unit n, _, _ => rfl
+  | _, _, _, .newtype n x t h, own, hg => by
+    simp only [cgoodV] at hg
+    simp [varC, payloadC, fromC_rt h own hg]
+  | _, _, _, .tuple n xs ts h _, own, hg => by
+    simp only [cgoodV] at hg
+    simp [varC, payloadC, cAll_rt _ xs (fromC_all h own hg)]
+  | _, _, _, .struct n names vals ts h hl hnd _ _, own, hg => by
+    simp only [cgoodV] at hg
+    simp [varC, payloadC, struct_fromC names vals ts own hl hnd (fromC_all h own hg) true]
+end
+
+
+/-! ## 8. the four buffered representations -/
+
+theorem hasPairs_even : {kvs : List SVal} → {k v : SType} → HasPairs kvs k v → kvs.length % 2 = 0
+  | _, _, _, .nil _ _ => rfl
+  | _, _, _, .cons _ _ _ _ _ _ _ hs => by have := hasPairs_even hs; simp; omega
+
+theorem oks_mkKvs : (ns : List Bytes) → (vs : List SVal) → (∀ n ∈ ns, nameOk n = true) → oks vs = true → oks (mkKvs ns vs) = true
+  | [], _, _, _ => by simp [mkKvs, oks]
+  | _ :: _, [], _, _ => by simp [mkKvs, oks]
+  | n :: ns, v :: vs, hn, hv => by
+    simp only [oks, Bool.and_eq_true] at hv
+    have h1 := hn n (by simp)
+    simp [mkKvs, oks, vok, h1, hv.1, oks_mkKvs ns vs (fun m hm => hn m (by simp [hm])) hv.2]
+
+mutual
+/-- typed values are in range (`vok`). -/
+theorem hasT_ok : {v : SVal} → {t : SType} → HasT v t → vok v = true
+  | _, _, .bool _ => rfl
+  | _, _, .int k v h1 h2 => by simp [vok, h1, h2]
+  | _, _, .f32 b h => by simp [vok, h]
+  | _, _, .f64 b h => by simp [vok, h]
+  | _, _, .char c h => by simp [vok, h]
+  | _, _, .str s h1 h2 => by simp [vok, nameOk, h1, h2]
+  | _, _, .bytes b h => by simp [vok, h]
+  | _, _, .unit => rfl
+  | _, _, .unitStruct => rfl
+  | _, _, .none _ => rfl
+  | _, _, .some v t h hok _ => by simp [vok, hok]
+  | _, _, .newtype v t h => by simp [vok, hasT_ok h]
+  | _, _, .seq known xs t h hl hoks => by simp [vok, hl, hoks]
+  | _, _, .tuple xs ts h hl => by simp [vok, hl, hasAll_ok h]
+  | _, _, .tupleStruct xs ts h hl => by simp [vok, hl, hasAll_ok h]
+  | _, _, .map known kvs k v h hl hoks _ => by simp [vok, hl, hoks, hasPairs_even h]
+  | _, _, .struct names vals ts h hl hnd hok hlen => by
+    have hlv : names.length = vals.length := by rw [hl, hasAll_length h]
+    have : (mkKvs names vals).length = 2 * vals.length := mkKvs_length names vals hlv
+    have h1 : (mkKvs names vals).length % 2 = 0 := by omega
+    have h2 : (mkKvs names vals).length / 2 < U64 := by omega
+    simp [vok, h1, h2, oks_mkKvs names vals hok (hasAll_ok h)]
+  | _, _, .enum v names vs n s hvar hf hn => hasVar_ok hvar hn
+theorem hasVar_ok : {v : SVal} → {n : Bytes} → {s : VShape} → VarOf v n s → nameOk n = true → vok v = true
+  | _, _, _, .unit n, hn => by simp [vok, hn]
+  | _, _, _, .newtype n x t hx, hn => by simp [vok, hn, hasT_ok hx]
+  | _, _, _, .tuple n xs ts hx hl, hn => by simp [vok, hn, hl, hasAll_ok hx]
+  | _, _, _, .struct n fn vals ts hx hl hnd hok hlen, hn => by
+    have hlv : fn.length = vals.length := by rw [hl, hasAll_length hx]
+    have : (mkKvs fn vals).length = 2 * vals.length := mkKvs_length fn vals hlv
+    have h1 : (mkKvs fn vals).length % 2 = 0 := by omega
+    have h2 : (mkKvs fn vals).length / 2 < U64 := by omega
+    simp [vok, hn, h1, h2, oks_mkKvs fn vals hok (hasAll_ok hx)]
+theorem hasAll_ok : {xs : List SVal} → {ts : List SType} → HasAll xs ts → oks xs = true
+  | _, _, .nil => rfl
+  | _, _, .cons x xs t ts h hs => by simp [oks, hasT_ok h, hasAll_ok hs]
+end
+
+theorem firstOk_at (c : Content) (v : SVal) : (vs : List VShape) → (i : Nat) → (s : VShape) → vs[i]? = some s →
+    (∀ j, j < i → ∀ s', vs[j]? = some s' → untaggedC s' c = .fail) → untaggedC s c = .ok v →
+    firstOk (untaggedCs vs) c = .ok v
+  | [], _, _, h, _, _ => by simp at h
+  | s0 :: ss, 0, s, h, _, hok => by
+    simp at h; subst h
+    simp [untaggedCs, firstOk, hok]
+  | s0 :: ss, i + 1, s, h, hfail, hok => by
+    have h0 := hfail 0 (by omega) s0 (by simp)
+    have ih := firstOk_at c v ss i s (by simpa using h) (fun j hj s' hs' => hfail (j + 1) (by omega) s' (by simpa using hs')) hok
+    simp [untaggedCs, firstOk, h0, ih]
+
+/-- untagged enums: the buffered content is accepted by the value's own variant, the earlier
+    ones having refused it. -/
+theorem untagged_rt (vs : List VShape) (i : Nat) (s : VShape) (v : SVal) (hi : vs[i]? = some s) (hok : vok v = true)
+    (hat : UntaggedAt vs i v) (hc : untaggedC s (cv v) = .ok v) (rest : Bytes) :
+    de (.untagged vs) (ser v ++ rest) = .ok v rest := by
+  have hany := de_any_on_ser v hok rest
+  simp only [de]
+  rw [Dec.bind_ok _ _ _ _ _ hany]
+  have : firstOk (untaggedCs vs) (cv v) = .ok v := firstOk_at (cv v) v vs i s hi (fun j hj s' hs' => hat j hj s' hs') hc
+  show liftC (firstOk (untaggedCs vs) (cv v)) rest = _
+  rw [this]; rfl
+
+
+/-! ### adjacently tagged: read directly when the tag comes first (as `ser` writes it) -/
+
+theorem adjDec_name (n : Bytes) (s : VShape) : (adjDec n s).name = n := by cases s <;> rfl
+
+theorem findAdj_adjDecs : (names : List Bytes) → (vs : List VShape) → (n : Bytes) →
+    findAdj (adjDecs names vs) n = (findShape names vs n).map (adjDec n)
+  | [], _, _ => by simp [adjDecs, findAdj, findShape]
+  | _ :: _, [], _ => by simp [adjDecs, findAdj, findShape]
+  | n' :: ns, s :: ss, n => by
+    have ih := findAdj_adjDecs ns ss n
+    simp only [adjDecs, findAdj, List.find?, findShape, adjDec_name] at ih ⊢
+    by_cases h : n' = n
+    · subst h; simp
+    · have : (n' == n) = false := by simpa using h
+      simp [this, ih]
+
+theorem adjKey_tag (tag content : Bytes) (k : Nat) (rest : Bytes) (ht : nameOk tag = true) :
+    adjKey tag content (some (k + 1)) (Enc.str tag ++ rest) = .ok (some .tag, some (k + 1)) rest := by
+  simp only [nameOk, Bool.and_eq_true, decide_eq_true_eq] at ht
+  unfold adjKey
+  simp only [adjNextKey]
+  rw [Dec.bind_run]
+  simp only [Dec.pure_run, Bool.not_true, Bool.false_eq_true, if_false]
+  rw [Dec.bind_ok _ _ _ _ _ (str_rt tag rest ht.1 ht.2)]
+  simp
+
+theorem adjKey_content (tag content : Bytes) (k : Nat) (rest : Bytes) (hc : nameOk content = true) (hne : tag ≠ content) :
+    adjKey tag content (some (k + 1)) (Enc.str content ++ rest) = .ok (some .content, some (k + 1)) rest := by
+  simp only [nameOk, Bool.and_eq_true, decide_eq_true_eq] at hc
+  have h1 : (content == tag) = false := by simpa using fun e => hne e.symm
+  unfold adjKey
+  simp only [adjNextKey]
+  rw [Dec.bind_run]
+  simp only [Dec.pure_run, Bool.not_true, Bool.false_eq_true, if_false]
+  rw [Dec.bind_ok _ _ _ _ _ (str_rt content rest hc.1 hc.2)]
+  simp [h1]
+
+theorem adjKey_end (tag content : Bytes) (bs : Bytes) : adjKey tag content (some 0) bs = .ok (none, some 0) bs := by
+  unfold adjKey
+  simp [adjNextKey, Dec.bind_run]
+
+theorem adjVariantA_rt (names : List Bytes) (vs : List VShape) (n : Bytes) (s : VShape) (rest : Bytes)
+    (hf : findShape names vs n = some s) (hn : nameOk n = true) :
+    adjVariantA (adjDecs names vs) (Enc.str n ++ rest) = .ok (adjDec n s) rest := by
+  have hn' := hn
+  simp only [nameOk, Bool.and_eq_true, decide_eq_true_eq] at hn'
+  unfold adjVariantA
+  rw [Dec.bind_ok _ _ _ _ _ (enumHeader_str n rest hn), Dec.bind_ok _ _ _ _ _ (str_rt n rest hn'.1 hn'.2),
+    findAdj_adjDecs, hf]; rfl
+
+theorem adjRemaining_end (tag content : Bytes) (ret : SVal) (bs : Bytes) :
+    adjRemaining tag content (some 0) ret bs = .ok ret bs := by
+  unfold adjRemaining
+  rw [Dec.bind_ok _ _ _ _ _ (adjKey_end tag content bs)]; rfl
+
+/-- the common part: tag entry, content key, content, end of map. -/
+theorem atag_with_content (tag content : Bytes) (names : List Bytes) (vs : List VShape) (n : Bytes) (s : VShape)
+    (x : SVal) (body rest : Bytes) (hf : findShape names vs n = some s) (ht : nameOk tag = true)
+    (hc : nameOk content = true) (hne : tag ≠ content) (hn : nameOk n = true)
+    (hdec : (adjDec n s).dec (body ++ rest) = .ok (some x) rest) :
+    deAtagBody tag content (adjDecs names vs)
+      (Enc.map 2 ++ (Enc.str tag ++ (Enc.str n ++ (Enc.str content ++ (body ++ rest))))) =
+      .ok (.struct [.str tag, .unitVariant n, .str content, x]) rest := by
+  unfold deAtagBody
+  rw [Dec.bind_ok _ _ _ _ _ (map_rt 2 _ (by decide)), Dec.bind_ok _ _ _ _ _ (adjKey_tag tag content 1 _ ht)]
+  dsimp only
+  rw [Dec.bind_ok _ _ _ _ _ (adjVariantA_rt names vs n s _ hf hn)]
+  dsimp only [Option.map]
+  rw [Dec.bind_ok _ _ _ _ _ (adjKey_content tag content 0 _ hc hne)]
+  dsimp only
+  rw [Dec.bind_ok _ _ _ _ _ hdec]
+  have := adjRemaining_end tag content (adjResult tag content (adjDec n s).name (some x)) rest
+  simpa [adjResult, adjDec_name] using this
+
+theorem datatype_map (n : Nat) (rest : Bytes) (h : n < U64) : datatype (Enc.map n ++ rest) = .ok .map (Enc.map n ++ rest) := by
+  rw [C03.map_pref n h]
+  exact datatype_head 5 (prefWidth n) n rest (by omega) (by omega) (prefWidth_fits n h)
+
+theorem deStructAny_map (fs : List FieldDec) (k : Nat) (rest : Bytes) (h : k < U64) :
+    deStructAny fs (Enc.map k ++ rest) = deStructBody fs (Enc.map k ++ rest) := by
+  unfold deStructAny
+  rw [Dec.bind_ok _ _ _ _ _ (datatype_map k rest h)]
+  simp
+
+theorem atag_rt (tag content : Bytes) (names : List Bytes) (vs : List VShape) (n : Bytes) (ht : nameOk tag = true)
+    (hc : nameOk content = true) (hne : tag ≠ content) (hn : nameOk n = true) (rest : Bytes) :
+    (findShape names vs n = some .unit →
+      de (.atag tag content names vs) (ser (.struct [.str tag, .unitVariant n]) ++ rest) = .ok (.struct [.str tag, .unitVariant n]) rest) ∧
+    (∀ x t, findShape names vs n = some (.newtype t) → HasT x t →
+      de (.atag tag content names vs) (ser (.struct [.str tag, .unitVariant n, .str content, x]) ++ rest) =
+        .ok (.struct [.str tag, .unitVariant n, .str content, x]) rest) ∧
+    (∀ xs ts, findShape names vs n = some (.tuple ts) → HasAll xs ts → xs.length < U64 →
+      de (.atag tag content names vs) (ser (.struct [.str tag, .unitVariant n, .str content, .tuple xs]) ++ rest) =
+        .ok (.struct [.str tag, .unitVariant n, .str content, .tuple xs]) rest) ∧
+    (∀ fn vals ts, findShape names vs n = some (.struct fn ts) → HasAll vals ts → fn.length = ts.length → fn.Nodup →
+      (∀ m ∈ fn, nameOk m = true) → vals.length < U64 →
+      de (.atag tag content names vs) (ser (.struct [.str tag, .unitVariant n, .str content, .struct (mkKvs fn vals)]) ++ rest) =
+        .ok (.struct [.str tag, .unitVariant n, .str content, .struct (mkKvs fn vals)]) rest) := by
+  refine ⟨?_, ?_, ?_, ?_⟩
+  · intro hf
+    simp only [de, ser, sers, List.length_cons, List.length_nil, List.append_assoc, List.append_nil]
+    unfold deAtagBody
+    rw [Dec.bind_ok _ _ _ _ _ (map_rt 1 _ (by decide)), Dec.bind_ok _ _ _ _ _ (adjKey_tag tag content 0 _ ht)]
+    dsimp only
+    rw [Dec.bind_ok _ _ _ _ _ (adjVariantA_rt names vs n .unit _ hf hn)]
+    dsimp only [Option.map]
+    rw [Dec.bind_ok _ _ _ _ _ (adjKey_end tag content rest)]
+    simp [adjDec, adjResult]
+  · intro x t hf hx
+    have := atag_with_content tag content names vs n (.newtype t) x (ser x) rest hf ht hc hne hn (by
+      simp only [adjDec]
+      rw [Dec.bind_ok _ _ _ _ _ (roundtrip_plain hx rest)]; rfl)
+    simpa [de, ser, sers] using this
+  · intro xs ts hf hx hl
+    have hlen := hasAll_length hx
+    have := atag_with_content tag content names vs n (.tuple ts) (.tuple xs) (Enc.array xs.length ++ sers xs) rest hf ht hc hne hn (by
+      simp only [adjDec, List.append_assoc]
+      rw [← hlen, Dec.bind_ok _ _ _ _ _ (tupleHeader_rt _ _ hl), Dec.bind_ok _ _ _ _ _ (deAll_rt ts xs (roundtrip_all hx) rest)]; rfl)
+    simpa [de, ser, sers] using this
+  · intro fn vals ts hf hx hl hnd hok hlen
+    have hlv : fn.length = vals.length := by rw [hl, hasAll_length hx]
+    have hh := mkKvs_half fn vals hlv
+    have := atag_with_content tag content names vs n (.struct fn ts) (.struct (mkKvs fn vals))
+      (Enc.map ((mkKvs fn vals).length / 2) ++ sers (mkKvs fn vals)) rest hf ht hc hne hn (by
+      simp only [adjDec, List.append_assoc]
+      rw [Dec.bind_run, deStructAny_map _ _ _ (by omega), struct_body_rt fn vals ts hl hnd hok hlen (roundtrip_all hx) rest]
+      rfl)
+    simpa [de, ser, sers] using this
+
+
+/-! ### internally tagged: `TaggedContentVisitor` then the owned `ContentDeserializer` -/
+
+theorem findVar_itagDecs (tag : Bytes) : (names : List Bytes) → (vs : List VShape) → (n : Bytes) →
+    findVar (itagDecs tag names vs) n = (findShape names vs n).map (fun s => (⟨n, fail .custom, itagC tag n s⟩ : VarDec))
+  | [], _, _ => by simp [itagDecs, findVar, findShape]
+  | _ :: _, [], _ => by simp [itagDecs, findVar, findShape]
+  | n' :: ns, s :: ss, n => by
+    have ih := findVar_itagDecs tag ns ss n
+    simp only [itagDecs, findVar, List.find?, findShape] at ih ⊢
+    by_cases h : n' = n
+    · subst h; simp
+    · have : (n' == n) = false := by simpa using h
+      simp [this, ih]
+
+theorem deAny_str (s rest : Bytes) (h : nameOk s = true) : deAny (Enc.str s ++ rest) = .ok (.str s) rest := by
+  have := de_any_on_ser (.str s) (by simpa [vok] using h) rest
+  simpa [ser, toW, textW, cOfW] using this
+
+/-- the entries after the tag are buffered as they come. -/
+theorem itagLoop_rt (tag : Bytes) (vds : List VarDec) : (fn : List Bytes) → (vals : List SVal) → fn.length = vals.length →
+    tag ∉ fn → (∀ m ∈ fn, nameOk m = true) → oks vals = true → ∀ (st1 : Option VarDec) (acc : List Content) (rest : Bytes),
+    loopN (itagStep tag vds) fn.length (st1, acc) (sers (mkKvs fn vals) ++ rest) = .ok (st1, acc ++ cKvs fn vals) rest
+  | [], [], _, _, _, _, st1, acc, rest => by simp [loopN, mkKvs, sers, cKvs]
+  | [], _ :: _, h, _, _, _, _, _, _ => by simp at h
+  | _ :: _, [], h, _, _, _, _, _, _ => by simp at h
+  | f :: fn, v :: vals, hl, hnt, hok, hoks, st1, acc, rest => by
+    simp only [oks, Bool.and_eq_true] at hoks
+    simp only [List.mem_cons, not_or] at hnt
+    have hk := deAny_str f (ser v ++ (sers (mkKvs fn vals) ++ rest)) (hok f (by simp))
+    have hv := de_any_on_ser v hoks.1 (sers (mkKvs fn vals) ++ rest)
+    have hne : (f == tag) = false := by simpa using fun e => hnt.1 e.symm
+    have hstep : itagStep tag vds (st1, acc) (Enc.str f ++ (ser v ++ (sers (mkKvs fn vals) ++ rest))) =
+        .ok (st1, acc ++ [.str f, cv v]) (sers (mkKvs fn vals) ++ rest) := by
+      unfold itagStep
+      rw [Dec.bind_ok _ _ _ _ _ hk]
+      simp only [hne, Bool.false_eq_true, if_false]
+      rw [Dec.bind_ok _ _ _ _ _ hv]; rfl
+    have ih := itagLoop_rt tag vds fn vals (by simpa using hl) hnt.2 (fun m hm => hok m (by simp [hm])) hoks.2 st1
+      (acc ++ [.str f, cv v]) rest
+    simp only [List.length_cons, loopN, mkKvs, sers, ser, List.append_assoc]
+    rw [Dec.bind_ok _ _ _ _ _ hstep, ih]
+    simp [cKvs]
+
+/-- internally tagged value with fields `fn` / `vals` (none for a unit variant): the tag entry
+    first, as `ser` writes it. -/
+theorem itag_rt (tag : Bytes) (names : List Bytes) (vs : List VShape) (n : Bytes) (s : VShape) (fn : List Bytes)
+    (vals : List SVal) (hf : findShape names vs n = some s) (hl : fn.length = vals.length) (hnd : (tag :: fn).Nodup)
+    (hok : ∀ m ∈ tag :: fn, nameOk m = true) (hn : nameOk n = true) (hoks : oks vals = true) (hlen : vals.length + 1 < U64)
+    (hc : itagC tag n s (some (.map (cKvs fn vals))) = .ok (.struct (.str tag :: .str n :: mkKvs fn vals))) (rest : Bytes) :
+    de (.itag tag names vs) (ser (.struct (.str tag :: .str n :: mkKvs fn vals)) ++ rest) =
+      .ok (.struct (.str tag :: .str n :: mkKvs fn vals)) rest := by
+  have hn' := hn
+  simp only [nameOk, Bool.and_eq_true, decide_eq_true_eq] at hn'
+  simp only [List.nodup_cons] at hnd
+  have hlen2 : (SVal.str tag :: SVal.str n :: mkKvs fn vals).length / 2 = vals.length + 1 := by
+    simp [mkKvs_length fn vals hl]; omega
+  have hid : variantId (itagDecs tag names vs) (Enc.str n ++ (sers (mkKvs fn vals) ++ rest)) =
+      .ok ⟨n, fail .custom, itagC tag n s⟩ (sers (mkKvs fn vals) ++ rest) := by
+    unfold variantId
+    rw [Dec.bind_ok _ _ _ _ _ (str_rt n _ hn'.1 hn'.2), findVar_itagDecs, hf]; rfl
+  have hstep1 : itagStep tag (itagDecs tag names vs) (none, [])
+      (Enc.str tag ++ (Enc.str n ++ (sers (mkKvs fn vals) ++ rest))) =
+      .ok (some ⟨n, fail .custom, itagC tag n s⟩, []) (sers (mkKvs fn vals) ++ rest) := by
+    unfold itagStep
+    rw [Dec.bind_ok _ _ _ _ _ (deAny_str tag _ (hok tag (by simp)))]
+    simp only [beq_self_eq_true, if_true, Option.isSome_none, Bool.false_eq_true, if_false]
+    rw [Dec.bind_ok _ _ _ _ _ hid]; rfl
+  have hloop := itagLoop_rt tag (itagDecs tag names vs) fn vals hl hnd.1 (fun m hm => hok m (by simp [hm])) hoks
+    (some ⟨n, fail .custom, itagC tag n s⟩) [] rest
+  simp only [de, ser, sers, List.append_assoc, hlen2]
+  unfold deItagBody
+  rw [Dec.bind_ok _ _ _ _ _ (datatype_map _ _ hlen)]
+  simp only [beq_self_eq_true, Bool.true_or, if_true]
+  rw [Dec.bind_ok _ _ _ _ _ (map_rt _ _ hlen)]
+  have hml : mapLoop (itagStep tag (itagDecs tag names vs)) (some (vals.length + 1)) (none, [])
+      (Enc.str tag ++ (Enc.str n ++ (sers (mkKvs fn vals) ++ rest))) =
+      .ok (some ⟨n, fail .custom, itagC tag n s⟩, cKvs fn vals) rest := by
+    unfold mapLoop
+    simp only [loopN]
+    rw [Dec.bind_ok _ _ _ _ _ hstep1, ← hl, hloop]; simp
+  rw [Dec.bind_ok _ _ _ _ _ hml]
+  dsimp only
+  rw [hc]; rfl
 
 end Minicbor.C17
